@@ -188,11 +188,17 @@ func (ph *ParseHandler) ParseAll(b []byte) (int, error) {
 			if err == nil {
 				err = ph.Catch(r, n, m)
 			}
+			if err != nil {
+				return ph.Length(), err
+			}
 		case CROAK:
 			n, m, bb, err := ParseCroak(b)
 			b = bb
 			if err == nil {
 				err = ph.Croak(n, m)
+			}
+			if err != nil {
+				return ph.Length(), err
 			}
 		case LOAD:
 			r, n, bb, err := ParseLoad(b)
@@ -200,11 +206,17 @@ func (ph *ParseHandler) ParseAll(b []byte) (int, error) {
 			if err == nil {
 				err = ph.Load(r, n)
 			}
+			if err != nil {
+				return ph.Length(), err
+			}
 		case RELOAD:
 			r, bb, err := ParseReload(b)
 			b = bb
 			if err == nil {
 				err = ph.Reload(r)
+			}
+			if err != nil {
+				return ph.Length(), err
 			}
 		case MAP:
 			r, bb, err := ParseMap(b)
@@ -212,17 +224,26 @@ func (ph *ParseHandler) ParseAll(b []byte) (int, error) {
 			if err == nil {
 				err = ph.Map(r)
 			}
+			if err != nil {
+				return ph.Length(), err
+			}
 		case MOVE:
 			r, bb, err := ParseMove(b)
 			b = bb
 			if err == nil {
 				err = ph.Move(r)
 			}
+			if err != nil {
+				return ph.Length(), err
+			}
 		case INCMP:
 			r, v, bb, err := ParseInCmp(b)
 			b = bb
 			if err == nil {
 				err = ph.InCmp(r, v)
+			}
+			if err != nil {
+				return ph.Length(), err
 			}
 		case HALT:
 			b, err = ParseHalt(b)
@@ -240,17 +261,26 @@ func (ph *ParseHandler) ParseAll(b []byte) (int, error) {
 			if err == nil {
 				err = ph.MOut(r, v)
 			}
+			if err != nil {
+				return ph.Length(), err
+			}
 		case MNEXT:
 			r, v, bb, err := ParseMNext(b)
 			b = bb
 			if err == nil {
 				err = ph.MNext(r, v)
 			}
+			if err != nil {
+				return ph.Length(), err
+			}
 		case MPREV:
 			r, v, bb, err := ParseMPrev(b)
 			b = bb
 			if err == nil {
 				err = ph.MPrev(r, v)
+			}
+			if err != nil {
+				return ph.Length(), err
 			}
 		}
 		if err != nil {
